@@ -15,7 +15,7 @@ LEVEL = "exploration"
 WORKERS = {"quick": 8, "thorough": 16}
 BUDGET = {"quick": 150, "thorough": 400}
 MIN_NONTRIVIAL = {"quick": 1500, "thorough": 30000}
-REQUIRED_HOOKS = ["json_to_cel", "encode", "decode", "path", "path-from-package", "evaluate:I", "evaluate:C", "special-encodings"]
+REQUIRED_HOOKS = ["deep-document", "rejected-document", "json_to_cel", "encode", "decode", "path", "path-from-package", "evaluate:I", "evaluate:C", "special-encodings"]
 RULE = (
     "Random JSON documents (depth <= 6; null, booleans, integers incl. int64 boundaries, floats incl. -0.0, subnormals and 1e308, arbitrary Unicode strings and "
     "keys, empty containers) are converted with json_to_cel and with json.loads(cls=CELJSONDecoder); every node must have the library class for its JSON kind "
@@ -321,10 +321,64 @@ def special_encodings(acc, rnd, n):
             acc.violation(f"encoder {kind} {wrap} {'raises' if str(got).startswith('raised') else 'wrong-text'}", f"CELJSONEncoder of a {kind} ({wrap}) gave {got!r:.60}, expected {want!r:.60}", {"doc": json.dumps({"special": kind, "want": want})})
 
 
+def deep_doc(rnd, depth):
+    """A narrow document of the given nesting depth with every scalar kind at the bottom and along the way."""
+    leaf = [True, False, None, 1, 0, -0.0, 1.5, "s", MV.INT_MAX]
+    doc = list(leaf) if rnd.random() < 0.5 else {"t": True, "f": False, "n": None, "i": 1, "z": 0, "d": 1.5, "s": "s"}
+    for lvl in range(depth - 1):
+        if rnd.random() < 0.5:
+            doc = [doc, rnd.choice(leaf)] if rnd.random() < 0.7 else [rnd.choice(leaf), doc, rnd.choice(leaf)]
+        else:
+            doc = {"k%d" % lvl: doc, "b": rnd.choice([True, False]), "x": rnd.choice(leaf)}
+    return doc
+
+
+def rejected_then_repaired(acc, rnd, c):
+    """A document the converter rejects (an integer outside int64, a value that is not JSON) must not leave anything behind:
+    the same Python object repaired in place, and fresh documents built right afterwards, convert like any other document."""
+    import celpy.adapter as ad
+
+    doc = rand_doc(rnd, 0, rnd.choice([2, 3, 4]))
+    if not isinstance(doc, (list, dict)):
+        doc = [doc, [1, 2, {"a": [3, 4]}], {"b": [5, {"c": 6}]}]
+    # plant the offending value as the LAST thing the converter meets (everything before it is already converted)
+    poison = rnd.choice([2**63, -(2**63) - 1, 10**30, object(), {1, 2}, b"bytes"])
+    if isinstance(doc, list):
+        doc.append([poison])
+        fix = lambda: doc.__setitem__(-1, [7])
+    else:
+        doc["zzzz"] = {"p": poison}
+        fix = lambda: doc.__setitem__("zzzz", {"p": 7})
+    acc.hook("rejected-document")
+    try:
+        ad.json_to_cel(doc)
+        acc.hook("rejected-document-accepted")
+    except Exception:
+        pass
+    # mutate earlier parts too, then repair the offending value in place
+    if isinstance(doc, list) and doc and isinstance(doc[0], list):
+        doc[0].append("appended-after-rejection")
+    elif isinstance(doc, dict):
+        doc["added-after-rejection"] = [True, 1, 1.0]
+    fix()
+    check_doc(acc, rnd, doc, c)
+    for _ in range(3):
+        check_doc(acc, rnd, rand_doc(rnd, 0, rnd.choice([2, 3])), c)
+
+
 def run(ctx):
     acc = ctx.acc
     rnd = ctx.rnd
     c = core.celpy()
+    k = 100
+    for depth in (7, 8, 9, 10, 12, 16, 24, 40, 80):
+        for _ in range(3):
+            k += 1
+            if ctx.mine(k):
+                acc.hook("deep-document")
+                check_doc(acc, rnd, deep_doc(rnd, depth), c)
+    for _ in range(ctx.scale(240, 8000)):
+        rejected_then_repaired(acc, rnd, c)
     # scalars of every kind (systematic)
     scalars = [None, True, False, 0, 1, -1, MV.INT_MAX, MV.INT_MIN, 2**53 + 1, 0.0, -0.0, 1.0, -1.5, 1e308, 5e-324, 1e-7, 123456789.125, "", "a", "é\U0001f431", "\x00\n\"\\", [], {}, [[]], [{}], {"": None}, {"a": {"b": {"c": [1, 2, {"d": True}]}}}, [True, 1, 1.0, "1", None], {"true": True, "1": 1}]
     for i, s in enumerate(scalars):
